@@ -7,15 +7,19 @@ prop("C13", pkg="c13",
           "with types Call..Oneway, seqids at varint boundaries) rendered through the package's Writer methods with the struct encoder's calling convention and compared "
           "byte-for-byte with harness/thriftspec; 'marshal' (27%) - Marshal of a tgen struct value vs thriftspec's encoding of the content read off the value by "
           "reflection (values with multi-entry maps: thriftspec-decoded, compared as content and re-encoded to the same bytes); 'readers' (18%) - thriftspec bytes with "
-          "long field/list headers where a short form exists, rotated/reversed field order and the other binary message-header form, read back through the Reader "
-          "methods; 'unmarshal' (18%) - the same alternatives given to Unmarshal of a tgen type. Protocol: binary strict 25%, non-strict 25%, compact 50%. Each clause "
+          "long field/list headers where a short form exists, rotated/reversed field order, the other binary message-header form and (compact) BOOL announced as 1 instead "
+          "of 2 as element type of lists/sets and key/value type of maps - the compact specification requires readers to accept both, and HEAD does for lists, sets, "
+          "skipped fields and the Reader methods - read back through the Reader "
+          "methods; 'unmarshal' (18%) - the same alternatives given to Unmarshal of a tgen type, in a third of the cases with an additional field the type does not declare put first on "
+          "the wire (any thrift type incl. bool collections announced as 1), which a conformant reader skips. Protocol: binary strict 25%, non-strict 25%, compact 50%. Each clause "
           "of the specification that the library is listed (known_findings.json, status known) to deviate from is replaced, on the expected side only, by the library's "
           "variant (thriftspec.Dialect) so that all other clauses stay compared, and every case whose bytes depend on it is counted in excluded_known. Of the seven "
           "deviations found six are repaired in /repo (listed fixed, compared against the unmodified specification, witnesses run as regression cases); only "
-          "KF-C13-005 (binary type ids) is still known and normalised. "
+          "KF-C13-005 (binary type ids) is still known and normalised, and KF-C13-008 (Unmarshal mis-decodes a declared map whose BOOL key/value type is announced as 1) is known: "
+          "such maps are not fed to Unmarshal while it is listed (counted in excluded_known). "
           "Thorough tier only: a native go fuzzing campaign FuzzThriftSpecDiff(data) of 60 s on 16 workers: data[0] selects the protocol and one of 8 static target struct types "
           "(all scalar types; nested lists/sets/maps; nested, pointer-to and recursive structs and containers of structs; required/optional/enum; unions; sparse ids up to "
-          "32767; embedding chains; 70 fields), the rest is decoded by thriftspec in strict mode (shortest-form varints, bool bytes 0/1, element type BOOL = 2 only) and "
+          "32767; embedding chains; 70 fields), the rest is decoded by thriftspec in strict mode (shortest-form varints, bool bytes 0/1; element type BOOL as 1 or 2) and "
           "matched against the target's schema; if it is a conformant encoding of a value of that type (no repeated ids/keys, no NaN keys, required fields present, enums "
           "in range, at most one union member) Unmarshal must accept it and yield that value, and Marshal of the result must be a specification encoding of its content; "
           "otherwise only no panic and <= 64 MiB allocated. Seeds: canonical and long-form/reordered thriftspec encodings of 3 generated values per (target, protocol) plus "
